@@ -435,7 +435,36 @@ def generate_facts(repo):
     fs = Lazy(lambda: body_with(core, 'fsyncdata', ['fsync_in_progress']))
     F('FSYNC_FLAG_IS_A_GUARD', lambda: ('let _flag = ResetableFlag' in fs and 'fsync_in_progress.store(false' not in fs), 'src/storage/core.rs',
       'Inner::fsyncdata: the in-progress flag is reset by a drop guard on every exit path')
+    def looks_again():
+        b = str(fs)
+        i_loop = pos(b, 'loop {', 'Inner::fsyncdata')
+        i_cas = pos(b, 'compare_exchange(false, true, Ordering::SeqCst, Ordering::SeqCst)', 'Inner::fsyncdata')
+        i_guard = pos(b, 'let _flag = ResetableFlag', 'Inner::fsyncdata')
+        i_sync = pos(b, 'safe.fsyncdata().await?', 'Inner::fsyncdata')
+        # the look after the guard's scope: second call of the dirty-bytes test, followed by the only `return Ok(())` behind it
+        i_first = pos(b, 'too_many_dirty_bytes_in_active_blob(', 'Inner::fsyncdata')
+        i_second = b.find('too_many_dirty_bytes_in_active_blob(', i_sync)
+        if i_second < 0:
+            raise TranslateError('Inner::fsyncdata: no look at the dirty bytes after the sync')
+        scope_closed = b.count('{', i_guard, i_second) < b.count('}', i_guard, i_second) + 1 and b.count('}', i_sync, i_second) >= 2
+        negated = b[i_second - 20:i_second].strip().endswith('!self.') or '!self.too_many_dirty_bytes_in_active_blob(' in b[i_sync:]
+        return (i_loop < i_cas < i_guard < i_first < i_sync < i_second and scope_closed and negated and
+                'return Ok(())' in b[i_second:] and '.await' not in b[i_guard:i_first].replace('self.safe.read().await', ''))
+    F('BACKGROUND_SYNC_LOOKS_AGAIN', lambda: (looks_again()), 'src/storage/core.rs',
+      'Inner::fsyncdata: a loop; the flag is taken by a SeqCst compare-exchange, lowered by the guard at the end of an inner scope, and AFTER that the dirty bytes are looked at again; the function returns only when they are within the limit (Conc/SyncHint.v steps T0..T5)')
+    stf = Lazy(lambda: body_with(core, 'should_try_fsync', ['too_many_dirty_bytes']))
+    fip = Lazy(lambda: body_with(core, 'fsync_in_progress', ['load']))
+    rf = Lazy(lambda: body_with(core, 'drop', ['self.flag.store']))
+    F('FSYNC_FLAG_IS_SEQCST', lambda: ('!self.fsync_in_progress()' in stf and 'fsync_in_progress.load(Ordering::SeqCst)' in fip and
+      'self.flag.store(false, Ordering::SeqCst)' in rf and core.count('fsync_in_progress.') == core.count('fsync_in_progress.load(Ordering::SeqCst)') +
+      core.count('fsync_in_progress.compare_exchange(false, true, Ordering::SeqCst, Ordering::SeqCst)')), 'src/storage/core.rs',
+      'every access to the in-progress flag is SeqCst (a write either is seen by the look after the flag went down or sees the flag down), and a writer asks for a sync only when it sees the flag down')
     ow = S('src/storage/observer_worker.rs')
+    trf = Lazy(lambda: body_with(ow, 'try_run_fsync_task', ['fsync_task']))
+    F('WORKER_REPLACES_TASK_PAST_ITS_LAST_LOOK', lambda: (re.search(r'!task\.is_finished\(\)\)\s*&&\s*self\.inner\.fsync_in_progress\(\)\s*\{[^}]*return false;', str(trf), re.S) is not None and
+      before(trf, 'return false;', 'complete_task(&mut self.fsync_task', 'try_run_fsync_task') and
+      before(trf, 'complete_task(&mut self.fsync_task', 'tokio::spawn(', 'try_run_fsync_task') and str(trf).count('return false;') == 1), 'src/storage/observer_worker.rs',
+      'try_run_fsync_task: a sync request is dropped only while a task exists AND the flag is up; otherwise the old task is awaited and a new one is spawned (Conc/SyncHint.v worker gate K2a/K2b)')
     pm = Lazy(lambda: body_with(ow, 'process_msg', ['OperationType::CloseActiveBlob']))
     logged = all(re.search(x + r'\s*\.await\s*\?', str(pm)) is None for x in
                  (r'close_active_blob\(\)', r'create_active_blob\(\)', r'restore_active_blob\(\)', r'update_active_blob\(&self\.inner\)', r'try_update_active_blob\(\)'))
